@@ -2,7 +2,7 @@
 import ast
 import re
 
-from ..astutil import (facts_at, AnalysisError, dotted, calls_in, last_attr, receiver, norm, is_name, walk_local, is_self_attr,
+from ..astutil import (facts_at, late_bound_closures, AnalysisError, dotted, calls_in, last_attr, receiver, norm, is_name, walk_local, is_self_attr,
                        loc, short, parent_map, names_in)
 from ..cfg import is_flow, path_str
 from .c03 import split_regions, calls_in_stmts
@@ -184,9 +184,28 @@ def run(ctx):
     ok = bool(clean)
     if ok:
         lps = [n for st in clean[0].body for n in walk_local(st) if isinstance(n, ast.For) and 'self._children' in norm(n.iter)]
-        ok = bool(lps)
-        if ok:
+        comps = [(n, g) for st in clean[0].body for n in ast.walk(st) if isinstance(n, (ast.ListComp, ast.GeneratorExp, ast.SetComp)) for g in n.generators if 'self._children' in norm(g.iter)]
+        ok = bool(lps) or bool(comps)
+        # a closure created per child must bind that child when it is created (default argument, args=) - not read the loop variable when it finally runs
+        for cl, v in late_bound_closures(clean[0]):
+            ctx.check('R2', 'RemoteContext._create_worker(_clean=True): what is started per child is bound to that child', False, 'RemoteContext._create_worker', f'late-binding-closure:{v}',
+                      f'`{short(cl, 60)}` reads the loop variable `{v}` when it runs, not when it is created: started after the iteration has moved on, every one of them ends the last '
+                      'child only - the other workers of a deleted context stay alive (and keep running its target) while the server reports the delete as done', where=loc(cwf, cl))
+        if lps and any(last_attr(c) == 'terminate' for c in calls_in(lps[0])):
             reap_loop_ok(ctx, cwf, lps[0], 'context')
+        elif ok:
+            # the per-child work lives in a local function applied to each child (directly, or as the target of a thread with args=(child,)): judge its body
+            holder = lps[0] if lps else comps[0][0]
+            var = (lps[0].target.id if lps and isinstance(lps[0].target, ast.Name) else (comps[0][1].target.id if comps and isinstance(comps[0][1].target, ast.Name) else None))
+            used = {x.id for x in ast.walk(holder) if isinstance(x, ast.Name)}
+            helpers = [g for g in ast.walk(cwf.node) if isinstance(g, ast.FunctionDef) and g is not cwf.node and g.name in used and g.args.args]
+            if helpers:
+                g = helpers[0]
+                synth = ast.For(target=ast.Name(id=g.args.args[0].arg, ctx=ast.Store()), iter=holder.iter if lps else comps[0][1].iter, body=g.body, orelse=[])
+                ast.copy_location(synth, g)
+                reap_loop_ok(ctx, cwf, synth, 'context')
+            else:
+                ok = False
     ctx.check('R2', 'RemoteContext._create_worker(_clean=True) iterates over the children it created', ok, 'RemoteContext._create_worker', 'context-clean-loop',
               'the clean-up branch of the context helper does not iterate over its children', where=loc(cwf, cwf.node))
     reg = [c for c in calls_in(cwf.node) if last_attr(c) == 'append' and receiver(c) == 'self._children']
